@@ -17,7 +17,7 @@ if __name__ != '__main__':
 
 THEOREMS = ['C07_prefix_inj', 'C07_prefix_unique', 'C07_prefix_total', 'C07_sort_det', 'C07_toposort_total',
             'C07_toposort_sound', 'C07_toposort_det', 'C07_doc_det',
-            'C07_wsdl_closed', 'C07_one_op', 'C07_binding_unique_refuted', 'C07_foreign_bare_refuted']
+            'C07_wsdl_closed', 'C07_one_op', 'C07_binding_unique', 'C07_binding_ops', 'C07_foreign_bare_refuted']
 
 HERE = os.path.abspath(__file__)
 PY = '/venv/bin/python'
